@@ -132,6 +132,26 @@ def run_matrix(tier, seed, report):
                         got = SL0.bilform_matrix(te, tr, use_mp=True)
                     n_eval += 1
                     report("matrix/pool/workers={}/{}/pw={}".format(w, name, pw), same(got, refs[name]), {})
+            # the SAME list objects re-ordered in place between two pooled calls (sorted by time slab, reversed): every call is the
+            # per-pair matrix of the order the lists have at that call
+            slmod.mp.cpu_count = lambda: 3
+            te_l, tr_l = list(lists["serial-10x12"][0]), list(lists["serial-10x12"][1])
+            ok_o, det_o = True, {}
+            try:
+                for step, reorder in (("as-given", None), ("sorted-by-time-slab", lambda l: l.sort(key=lambda e: (e.time_interval[0], -e.space_interval[0]))),
+                                      ("reversed", lambda l: l.reverse())):
+                    if reorder:
+                        reorder(te_l)
+                        reorder(tr_l)
+                    with quiet():
+                        got = SL0.bilform_matrix(te_l, tr_l, use_mp=True)
+                    n_eval += 1
+                    if not same(got, pairwise(SL0, te_l, tr_l)):
+                        ok_o, det_o = False, dict(step=step)
+                        break
+            except BaseException as e:
+                ok_o, det_o = False, dict(raised=repr(e))
+            report("matrix/pool/same-list-objects-reordered-in-place-between-calls/pw={}".format(pw), ok_o, det_o)
             slmod.mp.cpu_count = real_cpu
             # cache histories
             cdir = os.path.join(tmp, "pw%d" % pw)
@@ -177,6 +197,30 @@ def run_matrix(tier, seed, report):
             with quiet():
                 d2 = SLc.bilform_matrix(te, tr)
             report("matrix/cache/first-lists-again/pw={}".format(pw), same(d2, refs[name]), {})
+            # the caller owns what it gets: it modifies a returned matrix in place (scaling, zeroing a row) -- a later cache hit, from
+            # the same operator or from a new operator on the same directory, must still be the per-pair matrix; also for the
+            # uncached paths (inline / serial / pool)
+            try:
+                d2 *= 2.0
+                d2[0, :] = 0.0
+                with quiet():
+                    d3 = SLc.bilform_matrix(te, tr)
+                    d4 = SingleLayerOperator(mesh, pw_exact=pw, cache_dir=cdir).bilform_matrix(te, tr)
+                    u1 = SL0.bilform_matrix(te, tr, use_mp=False)
+                    u1 *= 2.0
+                    u2 = SL0.bilform_matrix(te, tr, use_mp=False)
+                    slmod.mp.cpu_count = lambda: 2
+                    p1 = SL0.bilform_matrix(te, tr, use_mp=True)
+                    p1 *= 2.0
+                    p2 = SL0.bilform_matrix(te, tr, use_mp=True)
+                    slmod.mp.cpu_count = real_cpu
+                ok_m = same(d3, refs[name]) and same(d4, refs[name]) and same(u2, refs[name]) and same(p2, refs[name])
+                det_m = dict(warm_same_operator=same(d3, refs[name]), warm_new_operator=same(d4, refs[name]), serial=same(u2, refs[name]),
+                             pool=same(p2, refs[name]))
+            except BaseException as e:
+                ok_m, det_m = False, dict(raised=repr(e))
+            n_eval += 6
+            report("matrix/cache/call-after-the-caller-modified-an-earlier-result-in-place/pw={}".format(pw), ok_m, det_m)
         # another curve, same N, M, same cache dir
         mesh2 = build_mesh("PiSquare")
         e2 = list(mesh2.leaf_elements)
@@ -275,6 +319,22 @@ def run_vector(tier, seed, report):
             d = Mc.linform_vector(other)
             refo = np.array([M0.linform(e)[0] for e in other])
         report("vector/cache/other-list-same-length", same(d, refo), {})
+        # the caller modifies a returned vector in place; later requests (cache hit, new operator on the directory, serial) unchanged
+        try:
+            with quiet():
+                v1 = Mc.linform_vector(elems)
+                v1 *= 2.0
+                v1[0] = 0.0
+                v2 = Mc.linform_vector(elems)
+                v3 = InitialOperator(mesh, u0, initial_mesh=UnitSquareBoundaryRefined, cache_dir=tmp).linform_vector(elems)
+                s1 = M0.linform_vector(elems)
+                s1 *= 2.0
+                s2 = M0.linform_vector(elems)
+            ok_m, det_m = same(v2, ref) and same(v3, ref) and same(s2, ref), dict(warm=same(v2, ref), new_operator=same(v3, ref), serial=same(s2, ref))
+        except BaseException as e:
+            ok_m, det_m = False, dict(raised=repr(e))
+        n_eval += 5
+        report("vector/cache/call-after-the-caller-modified-an-earlier-result-in-place", ok_m, det_m)
     finally:
         ipmod.mp.cpu_count = real_cpu
         shutil.rmtree(tmp, ignore_errors=True)
